@@ -70,6 +70,16 @@ int main(int argc, char **argv) {
       GenOpts o; o.nets = true; o.utilLo = 20; o.utilHi = 85; o.maxCells = 12;
       if (m & 2) o.turned = false; if (m & 16) o.polarity = false;
       TCircuit t = genCircuit(g, o);
+      if (g.coin(2)) {
+        // many two-pin nets to fixed pads near the edge of the supported magnitude range (|v| < 2^22): every coordinate and every net
+        // span fits an int with a wide margin, the TOTAL wirelength passes 2^31 (the optimiser's values are long long in the code).
+        // (Pads at +-1.2e9 were tried first: lemon's NetworkSimplex<int,int> then cycles for ever in runShiftsOnCells -- int overflow of
+        // its reduced costs; far outside the magnitude range of C07, recorded as an observation in DESIGN.md section 10.4.)
+        int n0 = (int)t.cells.size(); int npads = (int)g.uni(2, 3); int first = (int)t.cells.size();
+        for (int k = 0; k < npads; ++k) { long long x = (k % 2 ? 1 : -1) * (3900000LL + g.uni(0, 100000)); t.cells.push_back({x, g.uni(-50, 50), 1, 1, 0, 0, 1, 0}); }
+        int nn = (int)g.uni(600, 800);
+        for (int k = 0; k < nn && n0 > 0; ++k) { int c = (int)g.uni(0, n0 - 1); t.nets.push_back({{c, 0, 0}, {first + (int)g.uni(0, npads - 1), 0, 0}}); t.netw2.push_back(2); }
+      }
       int n = (int)t.cells.size(); int nops = (int)g.uni(1, 8);
       printf("DO %s %s %d", showRowsCells(t).c_str(), showNets(t).c_str(), nops);
       for (int k = 0; k < nops; ++k) {
@@ -150,6 +160,7 @@ int main(int argc, char **argv) {
       }
       printf("\n");
     } catch (std::exception &ex) { printf(" / THROW-OUTER %s\n", ex.what()); }
+    fflush(stdout);   // one complete line per case: a hang is then attributed to the case that hangs
   }
   return 0;
 }
